@@ -95,7 +95,14 @@ class SemData:
         return ('D', self.k, ast)
 
 
-SEMS = {'none': lambda: None, 'A': SemA, 'B': SemB, 'S2': lambda: SemScale(2), 'S3': lambda: SemScale(3),
+class SemUnreached:
+    """has an action, but for a rule no grammar of the pool has: nothing the parser looks up on it is found"""
+
+    def zz_unreached(self, ast):
+        return ('N', ast)
+
+
+SEMS = {'none': lambda: None, 'N': SemUnreached, 'A': SemA, 'B': SemB, 'S2': lambda: SemScale(2), 'S3': lambda: SemScale(3),
         'F1': lambda: SemFrozen(1), 'F2': lambda: SemFrozen(2), 'D1': lambda: SemData(1), 'D2': lambda: SemData(2)}
 
 
@@ -189,7 +196,8 @@ def run_op(op, env):
             _, g, text, sems = op[:4]
             m = tatsu.compile(GRAMS[g], name='SP')
             out = []
-            for sname in (sems if kind == 'spair' else sems[:1]):
+            rounds = op[4] if len(op) > 4 else 1
+            for sname in (list(sems) * rounds if kind == 'spair' else sems[:1]):
                 sem = SEMS[sname]()
                 try:
                     out.append(('ok', canon(m.parse(text, semantics=sem))))
@@ -286,6 +294,8 @@ def run_op(op, env):
     except ParseException as e:
         return ('fail', type(e).__name__)
     except Exception as e:
+        if tu.harness_fault(e):
+            raise
         return ('EXC', type(e).__name__, str(e)[:100])
     return ('?',)
 
@@ -386,9 +396,10 @@ def run_history(history):
         ops = msg[1]
         if ops[-1][0] == 'spair':
             _, g, text, sems = ops[-1][:4]
+            rounds = ops[-1][4] if len(ops[-1]) > 4 else 1
             a = eval_fresh([('ssingle', g, text, sems[:1])])
             b = eval_fresh([('ssingle', g, text, sems[1:])])
-            _send(rep_w, ('ok', a[1], b[1]) if a and b and a[0] == b[0] == 'ok' else ('?', a, b))
+            _send(rep_w, ('ok', *([a[1], b[1]] * rounds)) if a and b and a[0] == b[0] == 'ok' else ('?', a, b))
             continue
         if ops[-1][0] == 'bpair':
             # the pair is judged against two independent fresh processes, one per compile() call
@@ -449,14 +460,17 @@ def gen_history(rnd):
         elif c < 0.72:
             g = rnd.choice(list(GRAMS))
             op = ('parse', g, pick_text(rnd, g), rnd.choice(STARTS.get(g, [None]) + [None, None]), rnd.choice([False, False, True]), rnd.choice(['none', 'none', 'A', 'F1', 'F2', 'D2']))
-        elif c < 0.8:
+        elif c < 0.79:
             var = f'p{step}'
             g = rnd.choice(list(GRAMS))
             op = ('gen', g, rnd.choice(['G1', 'G2']), var)
             parsers[var] = g
         elif c < 0.815:
             g = rnd.choice(list(GRAMS))
-            op = ('spair', g, pick_text(rnd, g), rnd.sample(['A', 'B', 'S2', 'S3', 'F1', 'D1'], 2))
+            sems = rnd.sample(['A', 'B', 'S2', 'S3', 'F1', 'D1', 'N'], 2)
+            if rnd.random() < 0.3:
+                sems[0] = 'N' if sems[1] != 'N' else 'A'    # first an object on which no action is found, then (likely at its address) one with actions
+            op = ('spair', g, pick_text(rnd, g), sems, rnd.randint(1, 6))      # the pair several times over: address reuse is likely, not certain
         elif c < 0.83:
             g = rnd.choice(['g2', 'g6', 'g9', 'g2'])
             op = ('bshared', g, rnd.choice(OWN_TEXTS[g]), rnd.random() < 0.5)
